@@ -10,6 +10,7 @@ import (
 	"fmt"
 	"strings"
 	"sync"
+	"sync/atomic"
 	"time"
 
 	bs "github.com/danthegoodman1/bloomsearch"
@@ -895,8 +896,8 @@ func ackImpliesVisible(c *ctx, r Rng, i int) {
 }
 
 // trickleAgainstStalledStore (C09): the store stalls in CreateFile. Variant "time": a slow producer (one small
-// batch per 130 ms, slower than the 100 ms ticker) with a short MaxBufferedTime, so that only the time trigger
-// ever asks for a flush. Variant "empty": one small batch stays buffered below every limit and a flood of
+// batch at a time, the next one only after the actor has asked for a flush of the previous one) with a short
+// MaxBufferedTime, so that only the time trigger ever asks for a flush. Variant "empty": one small batch stays buffered below every limit and a flood of
 // empty batches follows. Either way the number of accepted, unanswered batches must stay within the bound.
 func trickleAgainstStalledStore(c *ctx, r Rng, i int) {
 	variant := []string{"time", "empty"}[i%2]
@@ -930,11 +931,33 @@ func trickleAgainstStalledStore(c *ctx, r Rng, i int) {
 	if variant == "time" {
 		// slower than the actor's 100 ms idle ticker, so that every flush is started by the ticker (not by the
 		// next request noticing the buffer's age), and well more batches than the bound
+		// Paced by the engine, not by the clock: after every accepted batch the producer waits until the actor has
+		// asked for a flush of it (hook event "enqueue_intent"; in the unchanged engine that flush was started by
+		// the ticker, the producer being idle), at most 1.2 s. Three refusals in a row mean the backpressure has
+		// been established and the scenario ends.
 		n = 26
-		for k := 0; k < n; k++ {
+		var intents atomic.Int64
+		bs.VerifSetHook(func(ev bs.VerifEvent) {
+			if ev.Kind == "enqueue_intent" {
+				intents.Add(1)
+			}
+		})
+		refusedInARow := 0
+		for k := 0; k < n && refusedInARow < 3; k++ {
+			before, was := intents.Load(), accepted
 			send([]map[string]any{{"_id": k}}, 40*time.Millisecond)
-			time.Sleep(230 * time.Millisecond)
+			if accepted == was {
+				refusedInARow++
+				time.Sleep(120 * time.Millisecond)
+				continue
+			}
+			refusedInARow = 0
+			for w := 0; w < 120 && intents.Load() == before; w++ {
+				time.Sleep(10 * time.Millisecond)
+			}
+			time.Sleep(20 * time.Millisecond)
 		}
+		uninstallHook()
 	} else {
 		n = 81
 		send([]map[string]any{{"_id": 0}}, 40*time.Millisecond)
